@@ -123,6 +123,8 @@ def gen_quad_rawkey(rng):
         rest = [l for l in labs if l != a]
         for l in rng.sample(rest, rng.choice([0, 1, 2, 2, 3, 3][:2 + 2 * min(2, len(rest) - 1)]) if rest else 0):
             k += [l] * rng.choice([1, 1, 1, 2, 3])
+        if len(rest) >= 2 and rng.random() < 0.4:
+            k = [a] * rng.choice([3, 5]) + rng.sample(rest, 2)          # degree three after squashing, whatever the kind
         rng.shuffle(k)
         return tuple(k)
     ts = list({k: (k, G.coef(rng)) for k in [longkey() for _ in range(rng.randint(1, 2))]}.values())   # a dict literal keeps one
@@ -217,7 +219,7 @@ def gen(rng, i, tier):
         return gen_quad_product(rng)
     if rng.random() < 0.07:
         return gen_cancel(rng)
-    if rng.random() < 0.07:
+    if rng.random() < 0.10:
         return gen_quad_rawkey(rng)
     if rng.random() < 0.05:
         return gen_tiny(rng)
